@@ -169,6 +169,12 @@ def reset_sites(cat, b, ctx, effs, adt, field, dflt):
                     if sub == ("empty",):
                         sites.add(e.top_bb)
                         notes.append("sub-part %s cleared @%s" % (".".join(rest), e.line))
+            elif e.cls == "destructive" and e.tag == ("Option", "take") and rest == ():
+                # `self.f.take()` leaves None behind
+                dv = dflt["values"].get(field) if dflt else None
+                if dv is None or equiv(("empty",), dv):
+                    sites.add(e.top_bb)
+                    notes.append("take() leaves None @%s" % e.line)
             elif e.cls == "assign" and rest == ():
                 vals = [absval(e.ctx, o) for o in e.value]
                 dv = dflt["values"].get(field) if dflt else None
@@ -930,6 +936,8 @@ def r_cover_heap(F, R, cat=None):
                             why.append("%s.heap_size" % f)
                         elif rest == ("[]",):
                             st = [s for s in iter_starts if b.dominates(s, e.top_bb)]
+                            if not st and e.ctx is ctx:
+                                st = indexed_over_full_range(ctx, e, f)
                             sites.update(st or [e.top_bb])
                             why.append("every element of %s" % f)
                 ok = bool(sites) and not b.can_return_avoiding(sites)
@@ -947,7 +955,77 @@ def r_cover_heap(F, R, cat=None):
                         for e in effs):
                     check_direct_callback(R, b, ctx, effs, self_path=("f:" + fd["name"],))
                     n += 1
+            check_callback_wrappers(F, R, b)
     R.floor("R-COVER(heap_size)", "heap_size bodies", nb, 12)
+
+
+def indexed_over_full_range(ctx, e, f):
+    """`for i in 0..self.f.len() { self.f[i].heap_size(..) }`: the element is indexed by the element
+    of the range 0..len(self.f).  Returns [block that starts the range iteration] or []"""
+    from expr import operand_tree
+    from r_alloc import walk
+    t = e.term
+    if not t.get("args"):
+        return []
+    fld = ("place", ctx.body.key, ("arg", 1), ("f:" + f,))
+    for nd in walk(operand_tree(ctx, t["args"][0])):
+        if nd[0] == "call" and nd[1][1] in ("index", "index_mut", "get_unchecked") and len(nd[2]) == 2 and nd[2][0] == fld:
+            pos = nd[2][1]
+            if pos[0] == "call" and pos[1] == ("Iterator", "next") and tuple(pos[3]) == ("v:Some", "f:0") and pos[2]:
+                src = pos[2][0]
+                start_bb = pos[4]
+                while src[0] == "call" and src[1][1] in ("into_iter", "by_ref", "iter") and src[2]:
+                    start_bb = src[4]
+                    src = src[2][0]
+                if src[0] == "agg" and src[1] == "Range::Range" and len(src[2]) == 2 and src[2][0] == ("const", "0"):
+                    end = src[2][1]
+                    is_len = (end[0] == "call" and end[1][1] == "len" and end[2] and end[2][0] == fld) or \
+                        (end[0] == "un" and end[1] == "PtrMetadata" and fld in list(walk(end)))
+                    if is_len and isinstance(start_bb, int):
+                        return [start_bb]
+    return []
+
+
+def check_callback_wrappers(F, R, b):
+    """a closure that heap_size hands to a child in place of the caller's callback must pass
+    every report on: the call of the captured callback is not control-dependent on the reported
+    values and passes (size, capacity) in that order"""
+    from core import closure_sites
+    from expr import facts_at, operand_tree
+    from r_alloc import walk
+    _Ctx = Ctx
+    for (bi, si, ckey, ops) in closure_sites(b):
+        cb = F.body(ckey)
+        if cb is None or cb.nargs < 3:
+            continue
+        cctx = _Ctx(cb)
+        params = {("place", cb.key, ("arg", i), ()) for i in range(2, cb.nargs + 1)}
+        for (xb, t) in cb.calls():
+            tag = callee_tag(t.get("callee"))
+            if tag[1] not in ("call_mut", "call_once", "call") or not t["args"]:
+                continue
+            roots = {r for (r, p) in cctx.org.operand(t["args"][0])}
+            if ("arg", 1) not in roots:
+                continue
+            dep = [f for f in facts_at(cctx, xb) if any(nd in params for x in f[1:3] if isinstance(x, tuple) for nd in walk(x))]
+            cap = ("place", cb.key, ("arg", cb.nargs), ())
+            if dep and any(nd == cap for f in dep for x in f[1:3] if isinstance(x, tuple) for nd in walk(x)):
+                # dropping pairs without capacity leaves both sums unchanged; anything finer is value-level
+                R.undecided_site("R-COVER(heap_size)", b.label(), "a wrapped callback filters reports by their capacity")
+                continue
+            R.check("R-COVER(heap_size)", b.label(), not dep,
+                    construct="a wrapped callback passes every report on",
+                    where="%s:%s" % (cb.file, t["line"]),
+                    detail="the captured callback is called unconditionally" if not dep else
+                    "the captured callback is called only under a condition on the reported values: "
+                    "reports are dropped (a storage with capacity but no contents still holds heap memory)")
+            if len(t["args"]) >= 2:
+                tup = operand_tree(cctx, t["args"][1])
+                if tup[0] == "agg" and len(tup[2]) == 2 and all(x in params for x in tup[2]):
+                    order = [x[2][1] for x in tup[2]]
+                    R.check("R-COVER(heap_size)", b.label(), order == sorted(order) and order[0] != order[1],
+                            construct="a wrapped callback passes (size, capacity) in order",
+                            where="%s:%s" % (cb.file, t["line"]), detail="parameters passed on: %s" % order)
 
 
 def check_direct_callback(R, b, ctx, effs, self_path):
